@@ -56,7 +56,7 @@ def run_checked(desc, spec, what="", second=None):
                                 observed=_safe_describe(res), clause="C11-closure")
         try:
             tv = D.value_of(res)
-        except M.Invalid as e:
+        except (M.Invalid, ValueError) as e:      # ValueError: the library refuses to walk its own result (e.g. a negative length)
             raise Violation("closure:%s:unevaluable" % (spec["op"],), "result of %s cannot be evaluated: %s" % (spec["op"], e),
                             observed=_safe_describe(res), clause="C11-closure")
     # the input still reads back as the same value
